@@ -67,7 +67,15 @@ type FuncContract struct {
 	Pkg      string // package path of the contract file ("" for library files)
 	Used     bool
 	At       string // source text fingerprint: binds the contract to the function containing this text
+	Asserts  []*AssertAt
 	RelName  string
+}
+
+// AssertAt is an inline assertion: proved just before the first instruction of the source line
+// containing the fingerprint text (names resolve to the locals visible there).
+type AssertAt struct {
+	At string
+	C  *Clause
 }
 
 type PredDef struct {
@@ -128,7 +136,7 @@ func newContracts0() *Contracts {
 }
 
 var clauseKeywords = map[string]bool{"func": true, "extern": true, "functype": true, "iface": true, "params": true, "results": true,
-	"requires": true, "ensures": true, "modifies": true, "loop": true, "pure": true, "trusted": true, "noinline": true, "panics": true,
+	"requires": true, "ensures": true, "assert": true, "modifies": true, "loop": true, "pure": true, "trusted": true, "noinline": true, "panics": true,
 	"pred": true, "ghost": true, "smt": true, "lemma": true, "assume": true, "end": true, "nonnil": true, "globalinv": true, "lemma_ind": true}
 
 func firstWord(s string) string {
@@ -268,6 +276,25 @@ func (cs *Contracts) LoadContractFile(path, pkgPath string) error {
 			} else {
 				cur.Ensures = append(cur.Ensures, k)
 			}
+		case "assert":
+			// assert at "<source text>" : <expr>
+			if cur == nil {
+				return fmt.Errorf("%s:%d: assert outside func", path, c.no)
+			}
+			t := strings.TrimSpace(c.text)
+			if !strings.HasPrefix(t, "at \"") {
+				return fmt.Errorf("%s:%d: assert needs: at \"<text>\" : <expr>", path, c.no)
+			}
+			t = t[4:]
+			q := strings.Index(t, "\" :")
+			if q < 0 {
+				return fmt.Errorf("%s:%d: assert needs: at \"<text>\" : <expr>", path, c.no)
+			}
+			k, err := mkClause(strings.TrimSpace(t[q+3:]), c.no)
+			if err != nil {
+				return err
+			}
+			cur.Asserts = append(cur.Asserts, &AssertAt{At: t[:q], C: k})
 		case "modifies":
 			if cur == nil {
 				return fmt.Errorf("%s:%d: modifies outside func", path, c.no)
